@@ -282,6 +282,17 @@ def execute(topo, op):
     o = op['op']
     kw = mk_kwargs(op.get('kw'))
     if o == 'add_node':
+        if op.get('ns_info') is not None:
+            # the documented ns_info parameter: services (name, type, node id) the node is created with
+            from fim.slivers.network_service import NetworkServiceSliver, NetworkServiceInfo
+            nsi = NetworkServiceInfo()
+            for nm, ty, nid in op['ns_info']:
+                sl = NetworkServiceSliver()
+                sl.set_name(nm)
+                sl.set_type(ServiceType[ty])
+                sl.node_id = nid
+                nsi.add_network_service(sl)
+            kw['ns_info'] = nsi
         return topo.add_node(name=op['name'], node_id=op.get('node_id'), site=op['site'], ntype=NodeType[op['ntype']], **kw)
     if o == 'remove_node':
         return topo.remove_node(op['name'])
@@ -308,7 +319,7 @@ def execute(topo, op):
     if o == 'remove_facility':
         return topo.remove_facility(name=op['name'])
     if o == 'add_switch':
-        return topo.add_switch(name=op['name'], node_id=op.get('node_id'), site=op['site'], nports=op.get('nports', 8))
+        return topo.add_switch(name=op['name'], node_id=op.get('node_id'), site=op['site'], nports=op.get('nports', 8), **kw)
     if o == 'remove_switch':
         return topo.remove_switch(name=op['name'])
     if o == 'add_network_service':
